@@ -100,6 +100,10 @@ let handle () =
     bools (df_values (nat_of_int n) (nat_of_int h) (n_of_int t) d)
   | "thtv" -> let n = int () in let h = int () in let hh = int () in let t = int () in let f = tf () in
     bools (tht_values (nat_of_int n) (nat_of_int h) (n_of_int hh) (n_of_int t) f)
+  | "tfvs" -> let n = int () in let h = int () in let f = tf () in let ts = list int in
+    String.concat " " (List.map (fun t -> bools (tf_values (nat_of_int n) (nat_of_int h) (n_of_int t) f)) ts)
+  | "dfvs" -> let n = int () in let h = int () in let d = df () in let ts = list int in
+    String.concat " " (List.map (fun t -> bools (df_values (nat_of_int n) (nat_of_int h) (n_of_int t) d)) ts)
   | "loop" ->
     let imax = (match next () with "-" -> None | s -> Some (nat_of_int (int_of_string s))) in
     let imin = nat () in let istop = stop () in
